@@ -51,9 +51,11 @@ async fn episode(p: &EpParams, mt: bool) -> EpReport {
         c0.create_sub(s, &t, 10).await.ok();
     }
     let target = subs[0].clone();
+    // pulls of the burst that came back with more than they asked for (seen from C15)
+    let over_limit: std::sync::Arc<std::sync::Mutex<Vec<String>>> = Default::default();
 
     // Leases on the target so that ack/modify have something to chew on.
-    let k = rng.below(5);
+    let k = rng.below(7);
     if k > 0 {
         let msgs: Vec<Msg> = (0..k).map(|i| Msg::tagged(&format!("pre{}", i))).collect();
         c0.publish(&t, &msgs).await.ok();
@@ -163,6 +165,8 @@ async fn episode(p: &EpParams, mt: bool) -> EpReport {
         let new_sub = sub_name(1, 9);
         let start_vt = w.vt();
         let abandon_after = rng.below(4);
+        let pull_limit = *rng.pick(&[1, 3]);
+        let over = std::sync::Arc::clone(&over_limit);
         let h = tokio::spawn(async move {
             match kind {
                 "DeleteSubAbandoned" => {
@@ -184,10 +188,18 @@ async fn episode(p: &EpParams, mt: bool) -> EpReport {
                     let _ = cx.modify(&sub, &ids, secs).await;
                 }
                 "PullRI" => {
-                    let _ = cx.pull(&sub, 3, true).await;
+                    if let Ok(ds) = cx.pull(&sub, pull_limit, true).await {
+                        if ds.len() > pull_limit as usize {
+                            over.lock().unwrap().push(format!("Pull(max_messages {}, return_immediately) returned {} messages", pull_limit, ds.len()));
+                        }
+                    }
                 }
                 "Pull" => {
-                    let _ = cx.pull(&sub, 3, false).await;
+                    if let Ok(ds) = cx.pull(&sub, pull_limit, false).await {
+                        if ds.len() > pull_limit as usize {
+                            over.lock().unwrap().push(format!("Pull(max_messages {}) returned {} messages", pull_limit, ds.len()));
+                        }
+                    }
                 }
                 "GetSub" => {
                     let _ = cx.get_sub(&sub).await;
@@ -372,6 +384,9 @@ async fn episode(p: &EpParams, mt: bool) -> EpReport {
                     rep.viol("C07", format!("C07:probe-publish-status:code={}", c), format!("after the burst a Publish to the live topic answers {}: {}", c, m));
                 }
             }
+        }
+        for m in over_limit.lock().unwrap().iter() {
+            rep.viol("C15", "C15:over-limit:Pull:in-burst", format!("{} (burst of {} calls{})", m, order.len(), if jumped { ", arriving in the instant the earlier leases ran out" } else { "" }));
         }
         // Control message on a healthy stream must have been processed.
         if let Some(h) = &stream {
